@@ -374,7 +374,7 @@ def run_evalhist(it):
         fct = f.create_function(database=db, number_of_draws=nd, gradient=True, hessian=False, bhhh=False)
     elif setup.startswith('objective'):
         fct = f.create_objective_function(database=db, number_of_draws=nd)
-    elif setup.startswith('fresh'):
+    elif setup.startswith('fresh') or setup == 'from-configuration':
         pass           # every call prepares its own identifiers on the SAME expression objects
     else:
         raise ValueError(setup)
@@ -382,6 +382,7 @@ def run_evalhist(it):
     free = f.dict_of_elementary_expression(TypeOfElementaryExpression.FREE_BETA)
     x0 = [float(free[k].initValue) for k in sorted(free)]
     calls = []
+    selection = {}
     ncall = 0
     stopped = False
 
@@ -395,6 +396,11 @@ def run_evalhist(it):
             r = f.get_value_and_derivatives(database=db, number_of_draws=nd, prepare_ids=True, gradient=True, hessian=True,
                                             bhhh=False, aggregation=True)
             return summary(r.function)
+        if setup == 'from-configuration':
+            # BIOGEME.from_configuration on the SAME expression object, for the configuration selected by the script
+            from biogeme.biogeme import BIOGEME
+            cfg = ';'.join(f'{n}:{selection.get(n, "m0")}' for n in sorted(cats))
+            return summary(BIOGEME.from_configuration(config_id=cfg, expression=f, database=db).calculate_init_likelihood())
         if setup == 'fresh-biogeme':
             from biogeme.biogeme import BIOGEME
             return summary(BIOGEME(db, f, number_of_draws=nd).calculate_init_likelihood())
@@ -439,7 +445,9 @@ def run_evalhist(it):
         elif k == 'scale':
             db.scale_column(op[1], op[2])
         elif k == 'select':
-            cats[op[1]].controlled_by.set_name(op[2])
+            selection[op[1]] = op[2]
+            if setup != 'from-configuration':
+                cats[op[1]].controlled_by.set_name(op[2])
         elif k == 'empty':
             from biogeme.expressions import Variable
             db.remove(Variable(op[1]) == Variable(op[1]))
